@@ -1127,11 +1127,19 @@ def dsk5(ctx, c):
         c.undecided("read_data:split", "split-test-not-found", "", wr_)
     else:
         opr = type(multi.test.ops[0]).__name__
-        c.check(U(multi.test) == "data_length > chunk_size" or U(multi.test) == "data_length >= chunk_size", "read_data:split", "continues in the next granule when more than the capacity remains", "split test %s" % U(multi.test),
-                "read_data splits on `%s`" % U(multi.test), repo.loc(rd, multi))
-        loops = [n for n in multi.body if isinstance(n, ast.For)]
-        cnt = U(loops[0].iter) if loops else ""
-        c.check(cnt == "range(chunk_size)", "read_data:chunk", "reads exactly the capacity from this granule", "reads %s" % cnt, "read_data reads %s bytes from a full granule" % cnt, repo.loc(rd, multi))
+        tt = U(multi.test)
+        if tt in ("data_length > chunk_size", "data_length >= chunk_size", "chunk_size < data_length"):
+            c.ok("read_data:split", "continues in the next granule when more than the capacity remains", repo.loc(rd, multi))
+            loops = [n for n in multi.body if isinstance(n, ast.For)]
+            cnt = U(loops[0].iter) if loops else ""
+            if not loops:
+                c.undecided("read_data:chunk", "copy-loop-not-recognised", "", repo.loc(rd, multi))
+            else:
+                c.check(cnt == "range(chunk_size)", "read_data:chunk", "reads exactly the capacity from this granule", "reads %s" % cnt, "read_data reads %s bytes from a full granule" % cnt, repo.loc(rd, multi))
+        elif tt in ("data_length < chunk_size",):
+            c.finding("read_data:split", "split test %s" % tt, "read_data treats data that exactly fills the granule as continuing (`%s`)" % tt, repo.loc(rd, multi))
+        else:
+            c.undecided("read_data:split", "split-test-not-recognised", tt, repo.loc(rd, multi))
         recs = [n for n in ast.walk(multi) if isinstance(n, ast.Call) and U(n.func) == "self.read_data"]
         if recs:
             args = [U(a) for a in recs[0].args] + ["%s=%s" % (k.arg, U(k.value)) for k in recs[0].keywords]
